@@ -1,6 +1,7 @@
 CONSTANTS MaxLen = 1
           Thr = 1000
           Sim = FALSE
+          Table <- SynTable
 INIT TInit
 NEXT TNext
 POSTCONDITION TraceAccepted
